@@ -14,8 +14,10 @@ import (
 	"math/bits"
 	"runtime"
 	"sync"
+	"unsafe"
 
 	"github.com/creachadair/mds/distinct"
+	"verif/elem"
 	"verif/vk"
 )
 
@@ -28,10 +30,15 @@ const Reset = -1
 // and a defect that shows only for some random choices of the counter (F8
 // needed a halving pass that removes nothing) is hit, and reproduced by the
 // replay, far more reliably.
+//
+// Elem is the element kind the counter is instantiated with (see kinds.go):
+// "" is Counter[int] fed the stream values themselves, every other kind turns
+// stream value v into an element of its own type.
 type DetCase struct {
-	Size int   `json:"n"`
-	Reps int   `json:"reps,omitempty"`
-	Ops  []int `json:"ops"`
+	Size int    `json:"n"`
+	Reps int    `json:"reps,omitempty"`
+	Ops  []int  `json:"ops"`
+	Elem string `json:"elem,omitempty"`
 }
 
 const maxReps = 256
@@ -46,13 +53,45 @@ func clampSize(n int) int {
 // runDet interprets a DetCase: oracle after every single Add / Reset, on
 // each of the Reps independent counters.
 func runDet(c DetCase, o *vk.Obs) string {
+	switch c.Elem {
+	case "":
+		return detKind(c, o, plainInts())
+	case elem.Int:
+		return detKind(c, o, intElems())
+	case elem.Str:
+		return detKind(c, o, strElems())
+	case elem.I16:
+		return detKind(c, o, i16Elems())
+	case elem.Wide:
+		return detKind(c, o, wideElems())
+	case elem.Ptr:
+		return detKind(c, o, ptrElems())
+	case elem.Any:
+		return detKind(c, o, anyElems())
+	case elem.F64:
+		return detKind(c, o, f64Elems())
+	case kindA64:
+		return detKind(c, o, a64Elems())
+	case kindA512:
+		return detKind(c, o, a512Elems())
+	}
+	return badKind(c.Elem)
+}
+
+// detKind runs the stream with the elements of one kind; the elements are
+// made once and shared by the Reps counters.
+func detKind[T comparable](c DetCase, o *vk.Obs, es *elems[T]) string {
+	elts, bad := es.stream(c.Ops)
+	if bad != "" {
+		return bad
+	}
 	reps := min(max(c.Reps, 1), maxReps)
 	for r := 0; r < reps; r++ {
 		ob := o
 		if r > 0 {
 			ob = &vk.Obs{} // classify once
 		}
-		if msg := runDetOnce(c, ob); msg != "" {
+		if msg := runDetOnce(c, ob, es, elts); msg != "" {
 			if reps > 1 {
 				return fmt.Sprintf("%s [counter %d of %d]", msg, r+1, reps)
 			}
@@ -60,12 +99,13 @@ func runDet(c DetCase, o *vk.Obs) string {
 		}
 	}
 	o.ClassIf(reps > 1, "several_counters_per_stream")
+	o.Class("elem=" + kindName(c.Elem))
 	return ""
 }
 
-func runDetOnce(c DetCase, o *vk.Obs) string {
+func runDetOnce[T comparable](c DetCase, o *vk.Obs, es *elems[T], elts []T) string {
 	size := clampSize(c.Size)
-	ctr := distinct.NewCounter[int](size)
+	ctr := distinct.NewCounter[T](size)
 	if l, n := ctr.Len(), ctr.Count(); l != 0 || n != 0 {
 		return fmt.Sprintf("new counter(size %d): Len = %d, Count = %d, want 0, 0", size, l, n)
 	}
@@ -82,10 +122,18 @@ func runDetOnce(c DetCase, o *vk.Obs) string {
 	// measurements
 	var (
 		maxDistinct, resets, resetsAfterHalving, repeatAfterHalving, repeats int
-		lenZeroAfterHalving, halvings, exactSteps                            int
+		lenZeroAfterHalving, halvings, exactSteps, nanResets                 int
 	)
 	for i, v := range c.Ops {
 		if v < 0 {
+			buffered := ""
+			if es.nan != nil && !halved && distinctSoFar+1 < size {
+				// an element that differs from itself is buffered at the Reset
+				// (exact regime before and after it: no halving pass meets it)
+				ctr.Add(*es.nan)
+				nanResets++
+				buffered = fmt.Sprintf(" with %d values and a NaN buffered", distinctSoFar)
+			}
 			ctr.Reset()
 			resets++
 			if halved {
@@ -96,7 +144,7 @@ func runDetOnce(c DetCase, o *vk.Obs) string {
 			}
 			distinctSoFar, prevQ, halved = 0, 1, false
 			if l, n := ctr.Len(), ctr.Count(); l != 0 || n != 0 {
-				return fmt.Sprintf("op#%d Reset (size %d): Len = %d, Count = %d afterwards, want 0, 0", i, size, l, n)
+				return fmt.Sprintf("op#%d Reset%s (size %d): Len = %d, Count = %d afterwards, want 0, 0", i, buffered, size, l, n)
 			}
 			continue
 		}
@@ -112,10 +160,10 @@ func runDetOnce(c DetCase, o *vk.Obs) string {
 				maxDistinct = distinctSoFar
 			}
 		}
-		ctr.Add(v)
+		ctr.Add(elts[i])
 		l, n := ctr.Len(), ctr.Count()
 		where := func() string {
-			return fmt.Sprintf("op#%d Add(%d) (size %d, %d distinct values since the last Reset)", i, v, size, distinctSoFar)
+			return fmt.Sprintf("op#%d Add(%d)%s (size %d, %d distinct values since the last Reset)", i, v, show(es, elts[i]), size, distinctSoFar)
 		}
 		if l < 0 || l > size {
 			return fmt.Sprintf("%s: Len = %d exceeds the buffer size", where(), l)
@@ -162,6 +210,7 @@ func runDetOnce(c DetCase, o *vk.Obs) string {
 	o.ClassIf(resetsAfterHalving > 0, "reset_after_halving")
 	o.ClassIf(lenZeroAfterHalving > 0, "first_halving_emptied_buffer")
 	o.ClassIf(halvings >= 3, "observed_halvings>=3")
+	o.ClassIf(nanResets > 0, "Reset_with_NaN_buffered")
 	switch {
 	case maxDistinct < size:
 		o.Class("d<size")
@@ -179,8 +228,12 @@ func runDetOnce(c DetCase, o *vk.Obs) string {
 		o.Class("size 2..4")
 	case size <= 64:
 		o.Class("size 5..64")
-	default:
+	case size <= 256:
 		o.Class("size 65..256")
+	case size < 1<<31:
+		o.Class("size 257..2^31-1")
+	default:
+		o.Class("size>=2^31")
 	}
 	return ""
 }
@@ -192,11 +245,15 @@ func runDetOnce(c DetCase, o *vk.Obs) string {
 // the given size are fed Vals; the mean of Count is compared with the number
 // of distinct values at the end of the stream and, if Mid > 0, after the
 // first Mid values as well.  Replaying it draws fresh entropy.
+// Elem is the element kind as in DetCase; the law of Count depends on the
+// stream through the equalities between its values only, so the statistics
+// are those of Counter[int] for every kind.
 type StatCase struct {
-	Size int   `json:"n"`
-	Vals []int `json:"v"`
-	Mid  int   `json:"mid,omitempty"`
-	R    int   `json:"r"`
+	Size int    `json:"n"`
+	Vals []int  `json:"v"`
+	Mid  int    `json:"mid,omitempty"`
+	R    int    `json:"r"`
+	Elem string `json:"elem,omitempty"`
 }
 
 // distinctIn counts the distinct values of vs (values are small non-negative ints).
@@ -218,20 +275,55 @@ func distinctIn(vs []int) int {
 	return d
 }
 
-// oneCounter feeds the stream to one fresh counter and returns Count at the
-// checkpoint (0 if there is none) and at the end.
-func oneCounter(c StatCase) (mid, end float64) {
-	ctr := distinct.NewCounter[int](clampSize(c.Size))
-	for i, v := range c.Vals {
-		if v < 0 {
-			continue
-		}
-		ctr.Add(v)
-		if i+1 == c.Mid {
-			mid = float64(ctr.Count())
-		}
+// statRunner prepares the stream for the element kind of the case and
+// returns oneCounter, which may be called from several goroutines at once, or
+// a message if the case cannot be run.
+func statRunner(c StatCase) (oneCounter func() (mid, end float64), bad string) {
+	switch c.Elem {
+	case "":
+		return statKind(c, plainInts())
+	case elem.Int:
+		return statKind(c, intElems())
+	case elem.Str:
+		return statKind(c, strElems())
+	case elem.I16:
+		return statKind(c, i16Elems())
+	case elem.Wide:
+		return statKind(c, wideElems())
+	case elem.Ptr:
+		return statKind(c, ptrElems())
+	case elem.Any:
+		return statKind(c, anyElems())
+	case elem.F64:
+		return statKind(c, f64Elems())
+	case kindA64:
+		return statKind(c, a64Elems())
+	case kindA512:
+		return statKind(c, a512Elems())
 	}
-	return mid, float64(ctr.Count())
+	return nil, badKind(c.Elem)
+}
+
+func statKind[T comparable](c StatCase, es *elems[T]) (func() (mid, end float64), string) {
+	elts, bad := es.stream(c.Vals)
+	if bad != "" {
+		return nil, bad
+	}
+	// oneCounter feeds the stream to one fresh counter and returns Count at
+	// the checkpoint (0 if there is none) and at the end.
+	return func() (mid, end float64) {
+		ctr := distinct.NewCounter[T](clampSize(c.Size))
+		for i, v := range c.Vals {
+			if v < 0 {
+				continue
+			}
+			ctr.Add(elts[i])
+			if i+1 == c.Mid {
+				mid = float64(ctr.Count())
+			}
+		}
+		return mid, float64(ctr.Count())
+	}, ""
 }
 
 // Acceptance band, in standard errors of the mean (s/sqrt(R), s the sample
@@ -348,6 +440,10 @@ func clampR(r int) int {
 // runStat is the replay entry: it runs the R counters on all cores itself.
 func runStat(c StatCase, o *vk.Obs) string {
 	R := clampR(c.R)
+	oneCounter, bad := statRunner(c)
+	if bad != "" {
+		return bad
+	}
 	mids, ends := make([]float64, R), make([]float64, R)
 	w := runtime.GOMAXPROCS(0)
 	var wg sync.WaitGroup
@@ -356,7 +452,7 @@ func runStat(c StatCase, o *vk.Obs) string {
 		go func(k int) {
 			defer wg.Done()
 			for i := k; i < R; i += w {
-				mids[i], ends[i] = oneCounter(c)
+				mids[i], ends[i] = oneCounter()
 			}
 		}(k)
 	}
@@ -380,12 +476,39 @@ func runStat(c StatCase, o *vk.Obs) string {
 
 // ReuseCase is one stream replayed M times on one counter with Reset between.
 type ReuseCase struct {
-	Size int `json:"size"`
-	D    int `json:"d"` // distinct values 0..D-1, each added once per run
-	M    int `json:"m"`
+	Size int    `json:"size"`
+	D    int    `json:"d"` // distinct values 0..D-1, each added once per run
+	M    int    `json:"m"`
+	Elem string `json:"elem,omitempty"` // element kind as in DetCase
 }
 
 func runReuse(c ReuseCase, o *vk.Obs) string {
+	switch c.Elem {
+	case "":
+		return reuseKind(c, o, plainInts())
+	case elem.Int:
+		return reuseKind(c, o, intElems())
+	case elem.Str:
+		return reuseKind(c, o, strElems())
+	case elem.I16:
+		return reuseKind(c, o, i16Elems())
+	case elem.Wide:
+		return reuseKind(c, o, wideElems())
+	case elem.Ptr:
+		return reuseKind(c, o, ptrElems())
+	case elem.Any:
+		return reuseKind(c, o, anyElems())
+	case elem.F64:
+		return reuseKind(c, o, f64Elems())
+	case kindA64:
+		return reuseKind(c, o, a64Elems())
+	case kindA512:
+		return reuseKind(c, o, a512Elems())
+	}
+	return badKind(c.Elem)
+}
+
+func reuseKind[T comparable](c ReuseCase, o *vk.Obs, es *elems[T]) string {
 	size, d, m := clampSize(c.Size), c.D, c.M
 	if m < 24 {
 		m = 24
@@ -393,7 +516,11 @@ func runReuse(c ReuseCase, o *vk.Obs) string {
 	if d < 20*size {
 		d = 20*size + 1
 	}
-	ctr := distinct.NewCounter[int](size)
+	elts, bad := es.upto(d)
+	if bad != "" {
+		return bad
+	}
+	ctr := distinct.NewCounter[T](size)
 	counts := map[uint64]int{}
 	var first uint64
 	var sum float64
@@ -403,7 +530,7 @@ func runReuse(c ReuseCase, o *vk.Obs) string {
 			return fmt.Sprintf("after Reset (run %d) Len = %d, Count = %d, want 0", run, ctr.Len(), ctr.Count())
 		}
 		for v := 0; v < d; v++ {
-			ctr.Add(v)
+			ctr.Add(elts[v])
 		}
 		got := ctr.Count()
 		if run == 0 {
@@ -425,30 +552,80 @@ func runReuse(c ReuseCase, o *vk.Obs) string {
 		o.NonTrivial()
 	}
 	o.ClassIf(len(counts) >= 5, "runs_gave>=5_distinct_counts")
+	o.Class("elem=" + kindName(c.Elem))
 	return ""
 }
 
 // HugeCase: one counter with a buffer of several hundred thousand elements:
 // Fill distinct values (exact regime when Fill < Size, otherwise the buffer
 // has been halved at least once), Reset, then After distinct values.
+//
+// Elem is the element kind as in DetCase.  With the kinds of big elements
+// (wide 88 bytes, a64 64 bytes, a512 512 bytes) the buffered elements take
+// more than 4, 16 or 64 MiB while their number stays below Size.  Size may
+// also be far beyond anything a stream can fill (2^31 .. MaxInt): such a
+// counter is exact for ever.
 type HugeCase struct {
-	Size  int `json:"size"`
-	Fill  int `json:"fill"`
-	After int `json:"after"`
+	Size  int    `json:"size"`
+	Fill  int    `json:"fill"`
+	After int    `json:"after"`
+	Elem  string `json:"elem,omitempty"`
 }
 
 func runHuge(c HugeCase, o *vk.Obs) string {
+	switch c.Elem {
+	case "":
+		return hugeKind(c, o, plainInts())
+	case elem.Int:
+		return hugeKind(c, o, intElems())
+	case elem.Str:
+		return hugeKind(c, o, strElems())
+	case elem.I16:
+		return hugeKind(c, o, i16Elems())
+	case elem.Wide:
+		return hugeKind(c, o, wideElems())
+	case elem.Ptr:
+		return hugeKind(c, o, ptrElems())
+	case elem.Any:
+		return hugeKind(c, o, anyElems())
+	case elem.F64:
+		return hugeKind(c, o, f64Elems())
+	case kindA64:
+		return hugeKind(c, o, a64Elems())
+	case kindA512:
+		return hugeKind(c, o, a512Elems())
+	}
+	return badKind(c.Elem)
+}
+
+func hugeKind[T comparable](c HugeCase, o *vk.Obs, es *elems[T]) string {
 	size := clampSize(c.Size)
-	ctr := distinct.NewCounter[int](size)
+	// val is the element of stream value x.  The values after the Reset are
+	// negative; for the kinds other than "" they stand for the stream values
+	// that follow those of the fill, so they are new to the counter as well.
+	val := es.of
+	if es.kind != "" {
+		base := max(c.Fill, 0)
+		if most := base + max(min(c.After, size-1), 0); most-1 > es.max {
+			return fmt.Sprintf("VK-INFRA %d distinct values do not fit the element kind %q (at most %d)", most, es.kind, es.max+1)
+		}
+		val = func(x int) T {
+			if x < 0 {
+				x = base + (-1 - x)
+			}
+			return es.of(x)
+		}
+	}
+	ctr := distinct.NewCounter[T](size)
 	for v := 0; v < c.Fill; v++ {
-		ctr.Add(v)
+		ctr.Add(val(v))
 		if v%4096 == 0 || v == c.Fill-1 {
 			if l := ctr.Len(); l > size {
 				return fmt.Sprintf("size %d: after %d distinct values Len = %d exceeds the buffer size", size, v+1, l)
 			}
 			if v+1 < size {
 				if l, n := ctr.Len(), ctr.Count(); l != v+1 || n != uint64(v+1) {
-					return fmt.Sprintf("size %d: after %d distinct values (fewer than the buffer size) Len = %d, Count = %d, want both %d", size, v+1, l, n, v+1)
+					return fmt.Sprintf("size %d%s: after %d distinct values (fewer than the buffer size) Len = %d, Count = %d, want both %d", size, hugeElem(es), v+1, l, n, v+1)
 				}
 			}
 		}
@@ -462,16 +639,36 @@ func runHuge(c HugeCase, o *vk.Obs) string {
 	}
 	after := min(c.After, size-1)
 	for v := 0; v < after; v++ {
-		ctr.Add(-1 - v)
-		ctr.Add(-1 - v/2)
+		ctr.Add(val(-1 - v))
+		ctr.Add(val(-1 - v/2))
 	}
 	if l, n := ctr.Len(), ctr.Count(); l != after || n != uint64(after) {
-		return fmt.Sprintf("size %d: after Reset and %d distinct values (fewer than the buffer size) Len = %d, Count = %d, want both %d", size, after, l, n, after)
+		return fmt.Sprintf("size %d%s: after Reset and %d distinct values (fewer than the buffer size) Len = %d, Count = %d, want both %d", size, hugeElem(es), after, l, n, after)
 	}
-	if c.Fill > 1<<18 {
+	// bytes of element storage held at the Reset while the counter was exact
+	var zero T
+	var held uint64
+	if c.Fill > 0 && c.Fill < size {
+		held = uint64(c.Fill) * uint64(unsafe.Sizeof(zero))
+	}
+	if c.Fill > 1<<18 || held > 4<<20 {
 		o.NonTrivial()
 	}
 	o.ClassIf(c.Fill >= size, "buffer_halved_before_Reset")
 	o.ClassIf(c.Fill > 1<<18, "more_than_2^18_values_buffered_at_Reset")
+	o.ClassIf(held > 4<<20, "exact_with>4MiB_of_elements")
+	o.ClassIf(held > 16<<20, "exact_with>16MiB_of_elements")
+	o.ClassIf(held > 64<<20, "exact_with>64MiB_of_elements")
+	o.ClassIf(size >= 1<<31, "size>=2^31")
+	o.Class("elem=" + kindName(c.Elem))
 	return ""
+}
+
+// hugeElem names the element type in the messages of the huge leg.
+func hugeElem[T comparable](es *elems[T]) string {
+	if es.kind == "" {
+		return ""
+	}
+	var zero T
+	return fmt.Sprintf(", %s elements of %d bytes", es.kind, unsafe.Sizeof(zero))
 }
